@@ -104,6 +104,9 @@ def statement(kind, k):
         return ['if t(%d) >= 0:' % k, '', '    print("c%d")' % k], 'c%d\n' % k, None, False, None
     if kind == 'gapclass':
         return ['class D%d(object):' % k, '    v = t(%d)' % k, '', '    w = 1'], '', None, False, None
+    if kind == 'csiprint':
+        # terminal control sequences that are NOT colour codes (erase line, cursor up, hide cursor): the visible text is what counts
+        return ['print("\\x1b[2Kitem %%d\\x1b[1A\\x1b[?25l minimum" %% t(%d))' % k], '\x1b[2Kitem %d\x1b[1A\x1b[?25l minimum\n' % k, 'None', True, None
     if kind == 'plong':
         return ['plong(t(%d))' % k], ('row %d: 100%% done\n{0} {x} {}\n%%s %%d %%(name)s\nback\\slash \\n\nlast line %d\n' % (k, k)), 'None', True, None
     if kind == 'classdef':
@@ -135,7 +138,7 @@ def statement(kind, k):
     raise KeyError(kind)
 
 
-PLAIN_KINDS = ['assign', 'print', 'expr', 'strexpr', 'nlstr', 'both', 'multi', 'multiexpr', 'multiprint', 'compound',
+PLAIN_KINDS = ['assign', 'print', 'expr', 'strexpr', 'nlstr', 'csiprint', 'both', 'multi', 'multiexpr', 'multiprint', 'compound',
                'funcdef', 'tripstr', 'print2']
 
 
